@@ -113,6 +113,9 @@ def check(case) -> CaseResult:
         tr = Trace()
         nodes, recv, src, d_clip = _make_nodes(case, trainable, tr)
         G = generate_graphs(nodes, ts_max=case["ts_max"], rng=key, num_episodes=1)
+        if int((onp.asarray(G.vertices[sup].seq) >= 0).sum()) < 2:
+            res.rejected = "fewer than two supervisor steps end inside the horizon (nothing to compile)"
+            return res
         try:
             graph = compiledrun.compile_graph(nodes, sup, G, mode=case["mode"], prune=True)
         except ValueError as ex:
